@@ -121,6 +121,41 @@ func init() {
 		}
 		l.def("c14ResponseFileFmt", "String", strconv.Quote(respFmt), "pkg/hook/hook.go prepareAdmissionResponseFile: fmt.Sprintf format")
 		l.def("c14ResponseFileArgs", "List String", leanStrList(respArgs), "pkg/hook/hook.go prepareAdmissionResponseFile: fmt.Sprintf arguments")
+		// the name of a run's binding context file: format string and arguments of the fmt.Sprintf in
+		// Hook.prepareBindingContextJsonFile (same per-run uuid mechanism)
+		ctxFmt, ctxArgs := "", []string{}
+		if fd := findFunc("pkg/hook/hook.go", "Hook", "prepareBindingContextJsonFile"); fd != nil && fd.Body != nil {
+			n := 0
+			ast.Inspect(fd.Body, func(x ast.Node) bool {
+				call, ok := x.(*ast.CallExpr)
+				if !ok {
+					return true
+				}
+				sel, ok := call.Fun.(*ast.SelectorExpr)
+				if !ok || sel.Sel.Name != "Sprintf" || len(call.Args) == 0 {
+					return true
+				}
+				lit, ok := call.Args[0].(*ast.BasicLit)
+				if !ok || lit.Kind != token.STRING {
+					stale = true
+					return true
+				}
+				n++
+				ctxFmt, _ = strconv.Unquote(lit.Value)
+				for _, a := range call.Args[1:] {
+					ctxArgs = append(ctxArgs, srcOf(a))
+				}
+				return true
+			})
+			if n != 1 {
+				stale = true
+			}
+		} else {
+			stale = true
+		}
+		l.def("c14ContextFileFmt", "String", strconv.Quote(ctxFmt), "pkg/hook/hook.go prepareBindingContextJsonFile: fmt.Sprintf format")
+		l.def("c14ContextFileArgs", "List String", leanStrList(ctxArgs), "pkg/hook/hook.go prepareBindingContextJsonFile: fmt.Sprintf arguments")
+
 		// where the BindingContext slice of a request comes from: for every return of
 		// AdmissionBindingsController.HandleEvent the source of the BindingContext field of the returned
 		// composite literal (a slice literal = built in this call, once per request), and the type of the
